@@ -54,7 +54,7 @@ func (c12) Runs(t Tier) int {
 }
 func (c12) RecordWidths() map[string]int { return nil }
 func (c12) RequiredProbes() []string {
-	return []string{"missing-interior-file-block", "missing-last-leaf", "missing-first-leaf", "missing-last-link-shard", "missing-nested-shard", "lookup-blocked", "lookup-not-blocked-under-fault", "kth-load-transient", "subset-fault", "hamt-depth>=3", "dedup-file-block-faulted", "missing-empty-block", "repeated-lookups-same-node"}
+	return []string{"missing-interior-file-block", "missing-last-leaf", "missing-first-leaf", "missing-last-link-shard", "missing-nested-shard", "lookup-blocked", "lookup-not-blocked-under-fault", "kth-load-transient", "subset-fault", "hamt-depth>=3", "dedup-file-block-faulted", "missing-empty-block", "repeated-lookups-same-node", "file-reread-after-recovery", "iterate-again-after-recovery"}
 }
 
 type c12Scenario struct {
@@ -292,7 +292,10 @@ func (c12) runFile(ts *tape.Set, tier Tier) *Result {
 	}
 
 	// fault-free run gives the number of loads
+	var lastNode datamodel.Node
+	recoveryFailure := ""
 	exec := func(p *faultPlan) (data []byte, rerr error, hit []cid.Cid, panicked bool, site, pmsg string, log []store.Event) {
+		lastNode = nil
 		st.ResetLog()
 		st.ReadPolicy = nil
 		st.Frag = fragFn(fragSeed, fragMode)
@@ -309,6 +312,7 @@ func (c12) runFile(ts *tape.Set, tier Tier) *Result {
 				rerr = fmt.Errorf("open: %w", err)
 				return
 			}
+			lastNode = n
 			if useAsBytes {
 				data, rerr = n.AsBytes()
 				if rerr == nil {
@@ -325,6 +329,20 @@ func (c12) runFile(ts *tape.Set, tier Tier) *Result {
 		})
 		if hits != nil {
 			hit = hits()
+		}
+		// the store recovers: a new reader from the SAME node must deliver the
+		// whole content (nothing about the failure may be remembered)
+		if p != nil && !panicked && lastNode != nil && len(hit) > 0 {
+			st.ReadPolicy = nil
+			var again []byte
+			var aerr error
+			p2, s2, m2 := guard(func() { again, aerr = lastNode.AsBytes() })
+			if p2 {
+				panicked, site, pmsg = p2, s2, "after recovery: "+m2
+			} else if aerr != nil || !bytes.Equal(again, content) {
+				recoveryFailure = fmt.Sprintf("after the store recovered, a new read from the same node returned %d/%d bytes, err=%v", len(again), len(content), aerr)
+			}
+			res.probe("file-reread-after-recovery")
 		}
 		res.Execs++
 		res.Events += len(st.Log)
@@ -385,6 +403,10 @@ func (c12) runFile(ts *tape.Set, tier Tier) *Result {
 		}
 		if panicked {
 			fail("c12/file/panic@"+site, "panic: %s", pmsg)
+			break
+		}
+		if recoveryFailure != "" {
+			fail("c12/file/failure-remembered-after-recovery", "%s", recoveryFailure)
 			break
 		}
 		if len(hit) == 0 {
@@ -877,6 +899,39 @@ func (c12) runDir(ts *tape.Set, tier Tier) *Result {
 		}
 		if res.Violation != nil {
 			break
+		}
+		// ---- the store recovers: iterating the SAME node again must now
+		// yield every entry once and no error
+		if len(hit) > 0 {
+			st.ReadPolicy = nil
+			count, nerr, dup := 0, 0, false
+			seen2 := map[string]bool{}
+			panicked, site, pmsg := guard(func() {
+				it := n.MapIterator()
+				for steps := 0; !it.Done() && steps < budget; steps++ {
+					k, _, e := it.Next()
+					if e != nil {
+						nerr++
+						continue
+					}
+					ks, _ := k.AsString()
+					if seen2[ks] {
+						dup = true
+					}
+					seen2[ks] = true
+					count++
+				}
+			})
+			res.Execs++
+			res.probe("iterate-again-after-recovery")
+			if panicked {
+				fail("c12/iter/panic@"+site, "iteration after recovery panicked: %s", pmsg)
+				break
+			}
+			if nerr != 0 || dup || count != len(model.Entries) {
+				fail("c12/iter/failure-remembered-after-recovery", "after the store recovered, iterating the same node again yielded %d of %d entries with %d errors (duplicates: %v)", count, len(model.Entries), nerr, dup)
+				break
+			}
 		}
 	}
 	res.Sig = sig
